@@ -25,14 +25,14 @@ chk(
 
 chk(
     "C12",
-    "bounded-exhaustive token enumeration + seeded Hypothesis author lists; conservation/idempotence invariants and differential against an independent word-based reference splitter",
+    "bounded-exhaustive token and frame enumeration + seeded Hypothesis author lists + coverage-guided fuzzing (atheris, oracle inside the target); conservation/idempotence invariants and differential against an independent word-based reference splitter",
     "Exploration: every string spelled by <= 5 (quick) / <= 6 (thorough) tokens of a 16-token alphabet covering every state of the and-scanner (words, and/And/AND, partial an/d, blanks, tab, newline, '~', braces, comma, escapes, lone backslash) is checked for conservation and idempotence, and - when brace-balanced - for equality with an independent reference splitter that was first validated on the repository's 44 BibTeX-derived cases; long random author lists and the SeparateCoAuthors/MergeCoAuthors middlewares (default and custom name_fields, in-place and copy) are searched with seeded Hypothesis.",
     "Trusted: pbt/refnames.py split_names (word-based reference), the conservation regex. Exact rule only on brace-balanced input, as the property states.",
     "DESIGN.md 4 C12",
 )
 chk(
     "C13",
-    "bounded-exhaustive token- and word-level enumeration of names + seeded Hypothesis; differential against an executable transcription of BibTeX's name rules validated on the repo corpus; conservation invariant",
+    "bounded-exhaustive token- and word-level enumeration of names + seeded Hypothesis + coverage-guided fuzzing (atheris, oracle inside the target); differential against an executable transcription of BibTeX's name rules validated on the repo corpus; conservation and history-independence invariants",
     "Exploration: every name of <= 5/6 tokens over a 13-token alphabet and every name of 1..4/5 words over 8 word classes with every separator choice (<= 2 commas) is compared with an executable transcription of the First/von/Last/Jr rules of the statement (validity verdict and the four lists) that is first validated on the repository's 149+11 BibTeX-derived cases; conservation per comma section is checked independently of the reference; SplitNameParts is checked to turn invalid names into a MiddlewareErrorBlock retaining the entry.",
     "Trusted: pbt/refnames.py tokenize_name/word_case/parse_name. Word case is left unspecified (partition not compared) for shapes the statement does not define (special-character look-alikes nested in ordinary groups etc.).",
     "DESIGN.md 4 C13",
